@@ -148,9 +148,10 @@ class DoubleAffine:
 
 @contract(f"{E}::EcCurve.Negate")
 class Negate:
-  caller_ensures = ["(result[0] is None) == (p[0] is None)", "(result[1] is None) == (p[1] is None)"]
-  # functional summary for comprehensions: the result is a deterministic function of (mod, p); exact value abstracted
-  returns_expr = "(p[0], ufi('neg_y', self.mod, p[1]))"
+  # what callers assume is about the integer values and is proved in the value pass (body with `%` kept)
+  caller_ensures = ["(result[0] is None) == (p[0] is None)", "(result[1] is None) == (p[1] is None)",
+                    "implies(p[0] is not None, result[0] == p[0] and result[1] == (0 - p[1]) % self.mod)"]
+  returns_expr = "(p[0], None if p[1] is None else (0 - p[1]) % self.mod)"
   params = {"p": "point"}
   self_fields = F
   returns = "point"
